@@ -33,7 +33,7 @@ def me_velocity(st, dew, vew, dns, vns, vrsign, vr):
 
 class Flight:
     def __init__(self, rng, icao, rx, df=17):
-        self.icao = icao; self.df = df
+        self.icao = icao; self.df = df; self.rx = rx
         # start within ~250 km of the receiver
         self.lat = Fr(rx[0]) + Fr(rng.below(4000) - 2000, 1000)
         self.lon = Fr(rx[1]) + Fr(rng.below(4000) - 2000, 1000)
@@ -43,6 +43,21 @@ class Flight:
         self.odd = rng.below(2)
     def frame(self, me): return adsb(self.icao, me, df=self.df, cf=(self.icao >> 3) % 8 if self.df == 18 else None)
     def step(self, rng, big=False):
+        if big and rng.chance(1, 2):
+            # teleport: next to the receiver (within ~25 km) or 1.2 - 2.6 degrees away from it, so that jumps which END close to the
+            # receiver, and jumps that start there, both occur (the jump limit must not depend on the distance to the receiver)
+            k = rng.below(4)
+            if k == 0: dl, dn = Fr(rng.below(400) - 200, 1000), Fr(rng.below(400) - 200, 1000)
+            elif k == 1:
+                dl = Fr(rng.choice([-1, 1]) * (1200 + rng.below(1400)), 1000); dn = Fr(rng.below(2000) - 1000, 1000)
+            else:
+                # one latitude zone (6 or 360/59 degrees) north or south of the receiver at nearly the same longitude: a report from there
+                # paired with a report from next to the receiver is a CPR alias, i.e. it decodes to a plausible position one zone off
+                z = rng.choice([Fr(6), Fr(360, 59), Fr(12), Fr(720, 59)])
+                dl = rng.choice([-1, 1]) * z + Fr(rng.below(200) - 100, 1000); dn = Fr(rng.below(200) - 100, 1000)
+            self.lat = max(Fr(-89), min(Fr(89), Fr(self.rx[0]) + dl))
+            self.lon = ((Fr(self.rx[1]) + dn + 180) % 360) - 180
+            return
         d = Fr(rng.below(200) - 100, 100000) if not big else Fr(rng.choice([-2, 2, 3]) , 1)
         self.lat = max(Fr(-89), min(Fr(89), self.lat + d))
         self.lon = ((self.lon + d * 2 + 180) % 360) - 180
@@ -51,11 +66,15 @@ class Flight:
             self.odd ^= 1 if rng.chance(4, 5) else 0; odd = self.odd
         if garbage: yz, xz = rng.bits(17), rng.bits(17)
         else: yz, xz = cprspec.encode(self.lat, self.lon, odd)
-        return self.frame(me_position(self.tc, alt12_of_feet(self.alt), odd, yz, xz))
+        # altitude field: mostly the flight's altitude; sometimes "no altitude" (all-zero field), a Q=1 value at or below 0 ft, an illegal
+        # Gillham code or another level, so that records with a position but without an altitude in one or both slots occur
+        r = rng.below(16)
+        a12 = alt12_of_feet(self.alt) if r < 11 else (0 if r < 13 else rng.choice([0x010, 0x017, 0x00a, 0x9e0, alt12_of_feet(self.alt + 2500)]))
+        return self.frame(me_position(self.tc, a12, odd, yz, xz))
 
 def history(rng, n_ops, n_planes=4, with_time=True, rx=None, rng_range=None, addrs=None):
     rx = rx or rng.choice([(39.0, -77.0), (52.3, 4.8), (-33.9, 151.2), (69.7, 19.0), (0.5, 179.5), (64.1, -21.9)])
-    rng_range = rng_range or rng.choice([500, 500, 300, 150, 1000])
+    rng_range = rng_range or rng.choice([500, 500, 300, 150, 1000, 800, 1500])
     ops = ["T reset %s %s %s" % (rx[0], rx[1], rng_range)]
     # addresses: mostly random; sometimes neighbouring ones; sometimes boundary values (zero, leading zeros, all ones)
     special = [0x000000, 0x000001, 0x00000A, 0x0ABCDE, 0xFFFFFF, 0x100000, 0x00FF00, 0x000100]
@@ -95,7 +114,13 @@ def history(rng, n_ops, n_planes=4, with_time=True, rx=None, rng_range=None, add
             kind = rng.below(4)
             if kind == 0: ops.append("T age %d" % rng.choice([10, 500, 950, 1050, 1950, 2050, 119900, 120100]))
             elif kind == 1: ops.append("T age %d" % max(0, T * 1000 - 60)); ops.append("T prune %d" % T)
-            elif kind == 2: ops.append("T age %d" % (T * 1000 + 60)); ops.append("T prune %d" % T)
+            elif kind == 2:
+                ops.append("T age %d" % (T * 1000 + 60))
+                if rng.chance(1, 2):
+                    # heard again after the ageing, but not through a position report: the record survives with an old position fix
+                    g = rng.choice(flights)
+                    ops.append(hexop("T act", g.frame(me_ident(1 + rng.below(4), rng.below(8), rng.choice(names)))))
+                ops.append("T prune %d" % T)
             else: ops.append("T prune %d" % T)
         else:
             f.step(rng); ops.append(hexop("T act", f.position(rng)))
